@@ -88,6 +88,12 @@ class Census:
                 suffix = '::' + (m.group(1) if m else '{closure}') + suffix
                 p = self.F.closure_parent[p]
             else:
+                # a fn item nested in a function / closure body is keyed under its enclosing body too
+                par = p.rsplit('::', 1)[0] if '::' in p else None
+                if par and (par in self.F.closure_parent or par in self.body_name) and par in self.F.bodies_raw:
+                    suffix = '::' + p.rsplit('::', 1)[1] + suffix
+                    p = par
+                    continue
                 return p + suffix
 
     def impure_bodies(self):
@@ -288,6 +294,44 @@ def std_precondition_sites(census, fns):
     return out
 
 
+def root_key(fk):
+    """the named function a census key belongs to: closures and nested helper fns are folded into it"""
+    m = re.match(r'^(builtin\([^)]*\))', fk)
+    if m:
+        return m.group(1)
+    return re.sub(r'::\{closure#\d+\}.*$', '', fk)
+
+
+_ROOT_BUDGET = None
+
+
+def root_budget():
+    """derived, frozen artefact (tools/mkbudget.py): total number of census sites per (census, named root function, kind) on the
+    reviewed tree. Used only as a fallback for sites whose function has no table row: restructuring inside one named function
+    (closure <-> nested fn <-> inline) moves sites between keys without adding any."""
+    global _ROOT_BUDGET
+    if _ROOT_BUDGET is None:
+        import json
+        import os
+        pth = os.path.join(os.path.dirname(os.path.abspath(__file__)), 'root_budget.json')
+        try:
+            _ROOT_BUDGET = json.load(open(pth))
+        except (OSError, ValueError):
+            _ROOT_BUDGET = {}
+    return _ROOT_BUDGET
+
+
+def within_root_budget(census_name, groups, fk, kind):
+    """groups: {(fn_key, kind): [sites]} of the whole census on the current tree"""
+    rb = root_budget().get(census_name, {})
+    root = root_key(fk)
+    b = rb.get('%s|%s' % (root, kind))
+    if b is None:
+        return False
+    cur = sum(len(v) for k, v in groups.items() if isinstance(k, tuple) and k[1] == kind and root_key(k[0]) == root)
+    return cur <= b
+
+
 INT_W = {'u8': 8, 'i8': 8, 'u16': 16, 'i16': 16, 'u32': 32, 'i32': 32, 'u64': 64, 'i64': 64, 'usize': 64, 'isize': 64, 'u128': 128, 'i128': 128}
 
 
@@ -310,9 +354,13 @@ def lossy_casts(census, fns):
     return out
 
 
+LAST_CAST_GROUPS = {}
+
+
 def check_casts(census, fns, rep, rid, table, what):
     import re as _re
     per = {}
+    LAST_CAST_GROUPS[rid] = per
     for fk, ft, b, bb in lossy_casts(census, fns):
         per.setdefault((fk, ft), []).append((b, bb))
     for (fk, ft), lst in sorted(per.items()):
@@ -322,6 +370,8 @@ def check_casts(census, fns, rep, rid, table, what):
                 ent = (cnt, why)
         if ent and len(lst) <= ent[0]:
             rep.ok(rid, '%s: %s x%d' % (fk, ft, len(lst)), 'reviewed: ' + ent[1])
+        elif not ent and within_root_budget('casts', per, fk, ft):
+            rep.ok(rid, '%s: %s x%d (moved within %s)' % (fk, ft, len(lst), root_key(fk)), 'the named function has no more such casts than on the reviewed tree')
         else:
             rep.viol(rid, '%s|cast|%s' % (fk, ft), '%s: %d lossy `as` cast(s) %s in %s (reviewed: %d): the value is truncated / wrapped / saturated silently instead of being rejected'
                      % (what, len(lst), ft, fk, ent[0] if ent else 0), lst[-1][0].loc(lst[-1][1]))
